@@ -13,7 +13,7 @@ import pandas as pd
 from ..harness import REPO
 from ..symx import ite, smax, smin, sabs, sand, sor, snot
 
-RISK_CSV = os.path.join(REPO, "tests", "aave_risk_parameters", "demo.csv")
+RISK_CSV = os.path.join(os.path.dirname(os.path.abspath(__file__)), "risk_fixture.csv")  # demo.csv rows + NOCOLL / NOBORROW
 SHADOWS = (
     "demeter.aave.market",
     "demeter.aave.core",
@@ -147,3 +147,76 @@ def states_equal(ctx, a, b, prefix, exact=True):
                 ok &= ctx.check(f"{prefix}: wallet[{k}] unchanged", a[part][k] == b[part][k])
     ok &= ctx.check(f"{prefix}: action log unchanged", a["n_actions"] == b["n_actions"])
     return ok
+
+
+# ------------------------------------------------------------------------------------------ symbolic portfolios
+
+# shape: {token: (supply_mode, has_debt)} with supply_mode in (None, "C", "N")
+SHAPES_QUICK = {
+    "A": {"WETH": ("C", False), "DAI": (None, True)},
+    "B": {"WETH": ("C", True), "USDC": ("C", False), "DAI": (None, True)},
+    "C": {"WETH": ("C", False), "WMATIC": ("N", False), "USDT": (None, True)},
+    "D": {"WETH": ("N", False), "DAI": (None, False)},
+    "E": {"WETH": ("C", False), "DAI": (None, False)},
+    "F": {"NOBORROW": ("C", False), "NOCOLL": ("N", False), "DAI": (None, True)},
+}
+SHAPES_THOROUGH = dict(SHAPES_QUICK)
+SHAPES_THOROUGH.update(
+    {
+        "G": {"WETH": ("C", True), "DAI": ("C", True)},
+        "H": {"WMATIC": ("C", False), "USDC": ("N", True), "DAI": ("C", False)},
+        "I": {"WETH": ("N", False), "USDC": ("C", False), "USDT": (None, True), },
+        "J": {"WETH": ("C", False), "USDC": ("C", False), "WMATIC": ("C", False)},
+        "K": {"NOCOLL": ("N", True), "WETH": ("C", False)},
+        "L": {"DAI": ("C", True)},
+    }
+)
+
+
+def sym_portfolio(ctx, shape, wallet=True, idx_hi=4, same_index=False):
+    """real market + broker in an arbitrary valid state of the given shape; returns the world.
+    Symbolic: scaled balances (dust excluded: >= 1e-9), liquidity / borrow index and price per token, wallet."""
+    names = list(shape)
+    w = AaveWorld(ctx, names)
+    li, bi, pr = {}, {}, {}
+    for n in names:
+        li[n] = ctx.dec(f"li_{n}", 1, idx_hi)
+        bi[n] = li[n] if same_index else ctx.dec(f"bi_{n}", 1, idx_hi)
+        pr[n] = ctx.dec(f"p_{n}", Decimal("0.001"), 10**5)
+        w.broker.set_balance(w.tok(n), ctx.dec(f"wal_{n}", 0, 10**9) if wallet else Decimal(0))
+    w.set_row(li, bi, pr)
+    sup, bor = {}, {}
+    for n, (mode, debt) in shape.items():
+        if mode:
+            sup[n] = (ctx.dec(f"s_{n}", Decimal("1e-9"), 10**9), mode == "C")
+        if debt:
+            bor[n] = ctx.dec(f"b_{n}", Decimal("1e-9"), 10**9)
+    w.install_state(sup, bor)
+    return w
+
+
+def warm_views(m):
+    """read every derived view (warms all five caches); returns them as a flat dict of numbers/flags"""
+    out = {}
+    for t, s in m.supplies.items():
+        out[f"supplies[{t.name}].amount"] = s.amount
+        out[f"supplies[{t.name}].value"] = s.value
+        out[f"supplies[{t.name}].collateral"] = s.collateral
+        out[f"supplies[{t.name}].base"] = s.base_amount
+    for t, b in m.borrows.items():
+        out[f"borrows[{t.name}].amount"] = b.amount
+        out[f"borrows[{t.name}].value"] = b.value
+    for t, v in m.supplies_value.items():
+        out[f"supplies_value[{t.name}]"] = v
+    for t, v in m.collateral_value.items():
+        out[f"collateral_value[{t.name}]"] = v
+    for t, v in m.borrows_value.items():
+        out[f"borrows_value[{t.name}]"] = v
+    out["total_supply_value"] = m.total_supply_value
+    out["total_collateral_value"] = m.total_collateral_value
+    out["total_borrows_value"] = m.total_borrows_value
+    out["health_factor"] = m.health_factor
+    out["ltv"] = m.ltv
+    out["max_ltv"] = m.max_ltv
+    out["liquidation_threshold"] = m.liquidation_threshold
+    return out
